@@ -130,9 +130,10 @@ def audit(prop, build_ok):
 def failing_theorems(prop, out):
     """map lake error lines to theorem names where possible"""
     names = set()
-    for m in re.finditer(r"(PfVerif/[\w/]+\.lean):(\d+):\d+: error", out):
-        f = os.path.join(LEAN_DIR, m.group(1))
-        line = int(m.group(2))
+    for m in re.finditer(r"(PfVerif/[\w/]+\.lean):(\d+):\d+:(?= error)|error: (PfVerif/[\w/]+\.lean):(\d+):\d+", out):
+        rel = m.group(1) or m.group(3)
+        f = os.path.join(LEAN_DIR, rel)
+        line = int(m.group(2) or m.group(4))
         try:
             lines = open(f).read().split("\n")
         except OSError:
@@ -143,7 +144,7 @@ def failing_theorems(prop, out):
             if mm:
                 name = mm.group(1) or "example"
                 break
-        names.add(f"{m.group(1)}:{name}")
+        names.add(f"{rel}:{name}")
     return sorted(names)
 
 
